@@ -167,7 +167,10 @@ class Source(object):
 
 EXC_PARENTS = {'RuntimeError': 'Exception', 'TypeError': 'Exception', 'KeyError': 'Exception',
                'StopIteration': 'Exception', 'AttributeError': 'Exception', 'IndexError': 'Exception',
-               'ValueError': 'Exception', 'Exception': None}
+               'ValueError': 'Exception', 'Exception': None,
+               # lark's parse errors (external) and the package's ParserError subclasses
+               'lark.UnexpectedToken': 'Exception', 'lark.UnexpectedCharacters': 'Exception',
+               'pkg.ParserError': 'Exception', 'pkg.UnexpectedToken': 'pkg.ParserError', 'pkg.UnexpectedCharacters': 'pkg.ParserError'}
 
 
 def exc_matches(name, handler):
@@ -807,6 +810,11 @@ class Executor(object):
             raise Unsupported('bare raise')
         exc = st.exc
         name = None
+        if isinstance(exc, ast.Call) and isinstance(exc.func, ast.Name) and exc.func.id in path.env \
+                and path.env[exc.func.id].ty == 'excclass':
+            name = path.env[exc.func.id].x
+            path.ghosts['raise_args'] = [self.ev(a, path) for a in exc.args]
+            return [('raise', (name, st.lineno), path)]
         if isinstance(exc, ast.Call) and isinstance(exc.func, ast.Name):
             name = exc.func.id
             for a in exc.args:          # message expressions are executed (safety), value opaque
@@ -862,6 +870,8 @@ class Executor(object):
             handled = False
             for hd in st.handlers:
                 hname = 'Exception' if hd.type is None else (hd.type.id if isinstance(hd.type, ast.Name) else None)
+                if hname is None and isinstance(hd.type, ast.Attribute) and isinstance(hd.type.value, ast.Name):
+                    hname = self.k.hints.get('exc_modules', {}).get(hd.type.value.id, hd.type.value.id) + '.' + hd.type.attr
                 if hname is None:
                     raise Unsupported('exception handler type')
                 if exc_matches(exc, hname):
